@@ -172,6 +172,9 @@ def check_case(case):
                 V("construct", "layer follows later edits of the caller's mask object", "mask %r given as %s: after flipping the caller's mask object in place, forward changed by %.3g" % (encode(bits, enc) if enc != "numpy" else bits, enc, float((y_b - y).abs().max())))
         except Exception as e:
             V("construct", "layer follows later edits of the caller's mask object", "after flipping the caller's mask object in place forward raised %s" % type(e).__name__)
+        if out:
+            h.remove()
+            return out
         seen.clear()
         y, ld = fwd(x)
     # (b) the conditioner saw exactly the identity features (and the context)
